@@ -239,12 +239,12 @@ CHECKS = {
         "engine": "E1 clock + E2 simsched",
         "technique": "deterministic simulation: arrivals as events on the simulated clock, caller threads interleaved at the bucket mutexes by the seeded scheduler; window bounds, refund and fairness checked over the recorded history",
         "rule": "programs = (tenant rates from {1,2,3,10,100,1000}/s x 1-3 tenants, optional global rate from {1,2,5,20,150,2000}/s, 1-3 caller threads x 3-30 calls (3-60 thorough), arrival pattern per thread: burst, exact 1/rate spacing +-1 ns / +2 us, "
-                "long idles up to 1 h, one tenant hammering, uniform in [0, 2/rate]); 6 seeded schedules per program. For every window of admitted calls of a tenant (and of all tenants for the global bucket), with times taken on the simulated clock "
+                "long idles up to 1 h, one tenant hammering, uniform in [0, 2/rate]); 6 seeded schedules per program; every fifth program (<= 12 calls per thread) is issued as Query RPCs through the in-process server (interceptor -> handler -> enforce_rate_limit, admitted = not RESOURCE_EXHAUSTED 'rate limit exceeded') instead of calling the limiter directly. For every window of admitted calls of a tenant (and of all tenants for the global bucket), with times taken on the simulated clock "
                 "before the first and after the last call: count <= burst + rate x dt + 1e-6. Single-caller programs additionally: a call refused while the tenant had >= 1 token (so refused by the global bucket) leaves available_tokens(tenant) "
                 "not lower than before; a call refused although conservative lower bounds on both the tenant's and the global bucket's tokens are >= 1 is a violation. evaluations = programs x schedules judged. "
                 "distinct_nontrivial = distinct (decision trace, admitted count) among runs with both admitted and refused calls.",
-        "assumptions": ["the server's enforce_rate_limit wrapper is not driven here", "fairness/refund clauses are only evaluated where attribution is exact (one caller thread)"],
-        "expected_probes": ["global_refusal_with_tenant_tokens_available", "multi_thread_runs"],
+        "assumptions": ["fairness/refund clauses are only evaluated where attribution is exact (one caller thread)", "server rows use Query as the rate-limited RPC (one enforce_rate_limit call per request); streaming RPCs, which charge one token per message, are not driven"],
+        "expected_probes": ["global_refusal_with_tenant_tokens_available", "multi_thread_runs", "runs_through_the_server"],
         "tiers": {"quick": {"runs_per_worker": 1000000, "budget_s": 25}, "thorough": {"runs_per_worker": 10000000, "budget_s": 600}},
         "level_text": "Seeded exploration of (rates, tenants, threads, arrival patterns) x schedules on a simulated clock; all windows of each recorded history are checked against the token-bucket bound, plus refund and fairness where attribution is exact.",
         "level_note": "trusted base: simulated clock (monotone, 1 us per read), bracketing of call times, conservative reference lower bounds",
@@ -275,13 +275,13 @@ CHECKS = {
         "engine": "E3 in-process server + E2 simsched (concurrent rows)",
         "technique": "deterministic simulation: seeded write histories of one tenant near its limit against the real server run in-process, invariant evaluated after every RPC and restart; rows with 2-3 caller threads interleaved at every lock operation by the seeded scheduler",
         "rule": "even runs: sequential history of 4-24 steps (6-50 thorough) by tenant acme (max_vectors in {1,2,3,5}, ids 1..limit+2 plus 0 and u32::MAX+1) and a bystander tenant: Insert, BulkInsert and BulkLoadHnsw of 1-5 items with duplicate ids inside the batch and rejected items "
-                "(wrong dimension, NaN/inf lane, zero vector, f32::MAX lanes), Delete (absent ids), BatchDelete by ids (duplicates, absent) and by filter, UpdateMetadata, FlushHotTier, index capacity 12 or 400, restarts on persistent configs. "
+                "(wrong dimension, NaN/inf lane, zero vector, f32::MAX lanes), Delete (absent ids), BatchDelete by ids (duplicates, absent) and by filter, UpdateMetadata, FlushHotTier, index capacity 12 or 400, restarts on persistent configs; on persistent configs a fifth of the write RPCs run with 1-3 storage faults armed on the data directory (C03's fault generator: errno / short write on WAL, snapshot, MANIFEST, directory calls). "
                 "odd runs: 0-6 sequential steps, then 2-3 caller threads x 1-2 RPCs (Insert, Delete, BulkInsert, BulkLoadHnsw, BatchDelete ids/filter) mostly on one id, 4 seeded schedules (random walk, sticky, PCT, bounded preemption) per program. "
                 "Invariant after every sequential RPC, after every restart and after the concurrent tail, for every tenant: server quota counter == number of canonical documents carrying the tenant's index (cold-tier ground truth); live <= max_vectors; "
                 "a single Insert answered RESOURCE_EXHAUSTED while the tenant was below its limit is a violation. evaluations = RPCs executed. distinct_nontrivial = distinct digests of (status codes, counter trajectory, decision trace).",
         "assumptions": ["the start-up recount is a copy of the lines in main() (vsim/src/server_harness.rs)", "/usage vector_count is not judged (the usage tracker is not restored by the harness at start-up)",
                         "rayon worker threads inside bulk loads are not scheduled by E2 (they take no engine lock)"],
-        "expected_probes": ["rpc_issued_at_the_limit", "refused_resource_exhausted", "bulk_batch_with_duplicate_ids", "bulk_load_partial_failure", "bulk_insert_partial_failure", "insert_failed_in_engine_after_reservation", "restart_recount_with_live_documents", "concurrent_rows"],
+        "expected_probes": ["rpc_issued_at_the_limit", "refused_resource_exhausted", "bulk_batch_with_duplicate_ids", "bulk_load_partial_failure", "bulk_insert_partial_failure", "insert_failed_in_engine_after_reservation", "restart_recount_with_live_documents", "concurrent_rows", "rpc_with_storage_fault_fired", "rpc_failed_under_storage_fault"],
         "tiers": {"quick": {"runs_per_worker": 1000000, "budget_s": 30}, "thorough": {"runs_per_worker": 10000000, "budget_s": 900}},
         "level_text": "Seeded exploration of single-tenant write histories near the quota limit (sequential with restarts, and concurrent under seeded schedules) through the real in-process server; counter == live judged after every step.",
         "level_note": "trusted base: ground truth = cold-tier metadata-index lookup of the tenant index; E2 lock model",
